@@ -44,7 +44,7 @@ class FakeOps:
             raise OSError("connection lost")
 
 
-def run_case(close_raises, fail_submit, script):
+def run_case(close_raises, fail_submit, script, later_state=None):
     """script: list of ('submit', name, [dep names]) | ('close',) ; returns list of problems"""
     from gwf.backends.base import TrackingBackend, BackendStatus
     from gwf.backends.exceptions import BackendError
@@ -96,6 +96,13 @@ def run_case(close_raises, fail_submit, script):
                 # the script goes on in the new invocation (ids keep counting: the scheduler is the same one)
                 ops2.n = ops.n
                 be, ops = be2, ops2
+                if later_state is not None:
+                    # what the scheduler says about the jobs of the earlier invocation when the next one starts
+                    from gwf.backends.base import BackendStatus
+                    st_ = getattr(BackendStatus, later_state)
+                    ops.states = {j: st_ for j in want_tracked.values()}
+                    ops.get_job_states = lambda tracked, ops=ops: {j: ops.states[j] for j in tracked if j in ops.states}
+                    be = TrackingBackend(wd, name="fake", ops=ops)
         return problems
     finally:
         shutil.rmtree(wd, ignore_errors=True)
@@ -164,6 +171,17 @@ def search():
                 if pr:
                     return {"ops.close raises": close_raises, "rejected submit calls": list(fail), "script": sc,
                             "problems": pr}, tried
+    # histories: the jobs of the first invocation have failed / were cancelled / completed / are forgotten by the
+    # scheduler when the second invocation opens and closes the backend (e.g. `gwf status`)
+    for later in ("FAILED", "CANCELLED", "COMPLETED", "UNKNOWN", "RUNNING"):
+        for sc in scripts:
+            if sc.count(("close",)) < 2:
+                continue
+            tried += 1
+            pr = run_case(False, (), sc, later_state=later)
+            if pr:
+                return {"ops.close raises": False, "rejected submit calls": [], "script": sc,
+                        "state of the earlier jobs at the second invocation": later, "problems": pr}, tried
     return None, tried
 
 
